@@ -1,7 +1,7 @@
 """Round-5 task files: same template, the four earlier mechanisms per property excluded."""
 import os
 src = open(os.path.join(os.path.dirname(__file__), 'gen_round4.py')).read()
-head = src.split('exec("for id,x in T.items():" + tail, ns)')[0]
+head = src.rsplit('exec("for id,x in T.items():" + tail, ns)', 1)[0]
 g = {'__file__': os.path.join(os.path.dirname(__file__), 'gen_round4.py')}
 exec(head, g)
 T, ns, tail = g['T'], g['ns'], g['tail']
